@@ -109,7 +109,8 @@ def _mk_object(case, divisor):
         from harness.simtransport import make_conn
         conn, t = make_conn("generic", None, stack=case["stack"], transport=name, auth_bypass=case.get("auth_bypass", False),
                             auth_username=S(u), auth_password=S(p), auth_private_key_passphrase=S(h), on_open=None,
-                            timeout_ops=case["ivl"] * divisor)
+                            timeout_ops=case["ivl"] * divisor,
+                            **({"comms_prompt_pattern": _chan_prompt()} if case.get("drvprompt") == "c" else {}))
         return conn, conn.channel, conn._base_transport_args
     if case.get("build") == "driver":
         from scrapli.driver import AsyncDriver, Driver
@@ -236,7 +237,7 @@ async def run_real_async(case, divisor):
 def model_line(case, res):
     loop = LOOPS[(case["flavour"], case["stack"])]
     tape = ",".join("E" if e[0] == "E" else f"{hexs(e[1])}@{e[2]}" for e in res["tape"]) or "."
-    which = "g" if case.get("via") == "driver" else ("d" if case.get("build") == "driver" else "c")
+    which = ("d" if case.get("drvprompt") == "c" else "g") if case.get("via") == "driver" else ("d" if case.get("build") == "driver" else "c")
     return f"run {loop} {which} {case['ivl']} {tape}"
 
 
@@ -284,7 +285,7 @@ def in_domain(case, pats):
     """the property's quantifier: banner / MOTD lines that, as whole lines, do not look like a login / password /
     passphrase prompt; (C02's business, not C09's:) no banner line prefix that looks like a shell prompt; usernames and
     passwords that do not themselves look like prompts"""
-    pp = pats["g" if case.get("via") == "driver" else "c"]
+    pp = pats["g" if (case.get("via") == "driver" and case.get("drvprompt") != "c") else "c"]
     for txt in banner_texts(case):
         low = txt.replace(b"\r", b"").lower()
         for line in low.split(b"\n"):
@@ -293,6 +294,15 @@ def in_domain(case, pats):
             for i in range(1, len(line) + 1):
                 if pp.search(line[:i]):
                     return False
+    d = case["dev"]
+    shown = [d.get("user_prompt", "Username: ")] if case["flavour"] == "telnet" else []
+    shown.append(d.get("pass_prompt", "Password: "))
+    if d.get("passphrase") is not None:
+        shown.append(d.get("phrase_prompt", PHRASE_PROMPTS[0]))
+    for txt in shown:
+        low = B(txt).lower()
+        if any(pp.search(low[:i]) for i in range(1, len(low) + 1)):
+            return False     # a prefix of a login prompt already looks like a shell prompt (e.g. `admin@` for GenericDriver): C02/F10
     u, p, h = creds(case)
     for c in (u, p, h):
         if any(pats[k].search(c.lower()) for k in "UPH") or pp.search(c.lower()):
@@ -640,6 +650,8 @@ def history_cases(tier, rng):
             subs = [login(fl, st, k, rng.choice([["all"], ["one"], ["list", [5, 3, 9, 2, 40, 7, 40]]])) for k in seq]
             last = subs[-1]
             last.update(via=via, build=build, ivl=(0 if st == "sync" else 1) if via == "driver" else 1)
+            if via == "driver":
+                last["drvprompt"] = "c"     # GenericDriver.open()/close() but with the BaseChannelArgs prompt pattern
             last["prev"] = [{k: v for k, v in x.items() if k in ("dev", "creds", "cuts", "on_empty", "dts", "eof", "budget")} for x in subs[:-1]]
             out.append(last)
     return out
